@@ -106,8 +106,8 @@ func (g *DecoderGroup[S, T]) Decode(source S, target T) error {
 	var err error
 	cache, ok := g.cache.Load(typ)
 	if ok {
-		if err = cache.(Decoder[S, T]).Decode(source, target); err == nil {
-			return nil
+		if err = cache.(Decoder[S, T]).Decode(source, target); err == nil || !errors.Is(err, ErrUnsupportedType) {
+			return err
 		}
 	}
 	for _, dec := range g.decoders {
